@@ -61,7 +61,7 @@ def enumerate_vectors(chk, name, max_tokens, max_len, with_ci, workers=12, timeo
     chk.add_tlc(f"MC_Glob[{name}]", res)
     vecs = []
     for m in re.finditer(r'^<<"VEC", (".*")>>$', res.output, re.M):
-        v = json.loads(json.loads(m.group(1)))
+        v = json.loads(json.loads(m.group(1)).replace("%", "\u017c"))       # "%" is the specification's stand-in for a non-ASCII letter
         v["matching"] = sorted("".join(s) for s in v["matching"])
         v["ancestors"] = sorted(a for a in ("".join(s) for s in v["ancestors"]) if not a.endswith("/"))      # no empty path components
         vecs.append(v)
@@ -177,7 +177,8 @@ def main(tier):
         for g, exp in (("t2/b\\\\1/**", ["b\\1/f"]), ("t2/b\\\\*/**", ["b\\1/f", "b\\x/f"]), ("t2/b\\\\[0-9]/*", ["b\\1/f"]), ("t2/*\\\\1/f", ["b\\1/f"]),
                        ("t2/c\\\\/**", ["c\\/f"]), ("t2/b1/**", ["b1/f"]), ("t2/b\\\\x/f", ["b\\x/f"])):
             r = lib.run_fclones(["group", "t2", "--path", g, "--rf-over", "0", "-f", "fdupes"], os.path.dirname(bdir), lib.base_env(work), timeout=60)
-            got = sorted(os.path.relpath(l, bdir) for l in r.out.decode("utf-8", "replace").splitlines() if l.strip()) if r.rc == 0 else None
+            import dd
+            got = sorted(os.path.relpath(os.fsdecode(dd.stfu8_decode(l)), bdir) for l in r.out.decode("utf-8", "replace").splitlines() if l.strip()) if r.rc == 0 else None
             anch += 1
             if got != sorted(exp):
                 chk.violation(f"C16/escaped-backslash glob={g!r}", f"`group --path {g}` selects {got} (exit {r.rc}), the glob matches exactly {sorted(exp)}",
